@@ -56,7 +56,7 @@ def tree_hash(repo, defines):
     h.update(subprocess.run(['clang++', '--version'], capture_output=True, text=True).stdout.encode())
     h.update(repr(flags(repo, defines)).encode())
     h.update(open(os.path.join(HERE, 'astfilter.c'), 'rb').read())
-    h.update(b'v6')
+    h.update(b'v7')
     for f in source_files(repo):
         h.update(f.encode()); h.update(b'\0'); h.update(open(f, 'rb').read()); h.update(b'\0')
     return h.hexdigest()[:24]
@@ -73,6 +73,7 @@ def run_clang(repo, defines, workdir):
         # every member of the class templates for the element types the repository uses, so that each member's body
         # (taken from the repository's headers) is present in the AST
         f.write('template class uspg_4d<face*>;\ntemplate class uspg_4d<oriented_point>;\ntemplate class uspg_3d<unsigned short>;\n')
+        f.write('template void remove_index<cell_ptr, unsigned>(std::vector<cell_ptr>&, std::vector<unsigned>&);\n')
     filt = os.path.join(HERE, 'astfilter')
     if not os.path.exists(filt):
         subprocess.check_call(['gcc', '-O2', '-o', filt, os.path.join(HERE, 'astfilter.c')])
